@@ -84,6 +84,10 @@ pub fn handshake(c: &Case, out: &mut Outcome) -> Option<(Ntlm, Vec<u8>)> {
         match r {
             Res::Ok(_) => {}
             Res::Err(err) => {
+                if !e.target_info.iter().any(|(id, _)| *id == 7) {
+                    out.label("no-timestamp-refused");
+                    return None;
+                }
                 if e.flags & ntlm::MANDATORY != ntlm::MANDATORY {
                     out.label("reduced-flags-refused");
                     return None;
@@ -119,6 +123,12 @@ pub fn handshake(c: &Case, out: &mut Outcome) -> Option<(Ntlm, Vec<u8>)> {
     let auth = match r {
         Res::Ok(v) => v,
         Res::Err(e) => {
+            if !c.challenge.target_info.iter().any(|(id, _)| *id == 7) {
+                // the property quantifies over target-info blocks with a timestamp; without one a client may refuse. If it
+                // answers, the token is verified like any other (the time stamp is then the client's own)
+                out.label("no-timestamp-refused");
+                return None;
+            }
             if c.challenge.flags & ntlm::MANDATORY != ntlm::MANDATORY {
                 // a client may insist on the session security it asked for; nothing to verify then
                 out.label("reduced-flags-refused");
@@ -158,6 +168,9 @@ pub fn run(c: &Case) -> Outcome {
     }
     if c.challenge.flags & ntlm::MANDATORY != ntlm::MANDATORY {
         out.label("reduced-flags");
+    }
+    if !c.challenge.target_info.iter().any(|(id, _)| *id == 7) {
+        out.label("no-timestamp-answered");
     }
     let (r, _) = call(|| {
         let mut si = n.build_security_interface();
@@ -285,6 +298,7 @@ pub fn decode(s: &mut Src) -> Case {
     let other = s.chance(40);
     // (the subset is taken from two bytes and-ed: few flags dropped at a time more often than many)
     let reduce = if s.chance(64) { 1 + (s.u8() & s.u8() & 0x3F) } else { 0 };
+    let no_timestamp = s.chance(20);
     let domain = gen_name(s, 16);
     let user = gen_name(s, 20);
     let password = crate::mem::gen_string(s, 32);
@@ -292,6 +306,9 @@ pub fn decode(s: &mut Src) -> Case {
     let mut challenge = gen_challenge(s, !ascii);
     if reduce > 0 {
         reduce_flags(reduce - 1, &mut challenge);
+    }
+    if no_timestamp {
+        challenge.target_info.retain(|(id, _)| *id != 7);
     }
     let ml = s.below(64);
     let from_hash = s.chance(100);
